@@ -68,8 +68,8 @@ def rand_stdin(rng):
     return b"".join(rng.choice(ALPHA) for _ in range(n))
 
 
-def cli_batch(binary, cases):
-    # the address-space limit is inherited by the spawner too: keep its batches small
+def cli_batch(binary, cases, retry=True):
+    # the address-space limit is set by the spawner in each child between fork and exec (never on the spawner itself)
     if len(cases) > 3000:
         out = []
         for k in range(0, len(cases), 3000):
@@ -78,19 +78,23 @@ def cli_batch(binary, cases):
     lines = []
     for argv, stdin in cases:
         lines.append("a=" + ",".join(hx(x) for x in argv) + " in=" + stdin.hex())
-
-    def pre():
-        resource.setrlimit(resource.RLIMIT_AS, (1 << 30, 1 << 30))
-    p = subprocess.run([HARNESS_BIN, "cli", binary, str(NPROC)], input=("\n".join(lines) + "\n").encode(), stdout=subprocess.PIPE,
-                       stderr=subprocess.DEVNULL, env=ENV, preexec_fn=pre)
+    p = subprocess.run([HARNESS_BIN, "cli", binary, str(NPROC), str(1 << 30)], input=("\n".join(lines) + "\n").encode(), stdout=subprocess.PIPE,
+                       stderr=subprocess.DEVNULL, env=ENV)
     out = p.stdout.decode().split("\n")
-    return [(out[i].split(" ")[0] if i < len(out) and out[i] else "missing") for i in range(len(cases))]
+    res = [(out[i].split(" ")[0] if i < len(out) and out[i] else "missing") for i in range(len(cases))]
+    miss = [i for i, r in enumerate(res) if r == "missing"]
+    if miss and retry:
+        # the spawner itself lost these (killed, out of processes …): once more, on their own, before anything is concluded from them
+        for i, r in zip(miss, cli_batch(binary, [cases[i] for i in miss], retry=False)):
+            res[i] = r
+    return res
 
 
 def run(chk):
     L = 4 if chk.tier == "quick" else 5
     chk.rule = (f"in-process: every bounds string of ≤ {L} symbols over {{1,2,9,-,+,:,=,{{,}},comma,backslash,a,é}} × modes -f(dispatch) -c -b -l -M "
-                "--json -m on fixed probe inputs (watchdog 8 s, catch_unwind); CLI: random argv from the whole option grammar with adversarial "
+                "--json -m on fixed probe inputs; boundary records (only delimiter bytes) alone and as the 2nd/3rd record after records with several "
+                "fields, literal and regex delimiters × subsets of -g -p -s -j -r -t (watchdog 8 s, catch_unwind); CLI: random argv from the whole option grammar with adversarial "
                 "value pools (huge/negative/zero indexes, unbalanced/escaped braces, empty strings, multi-byte text, invalid regexes, -M extremes) "
                 "× adversarial stdin, on the debug AND the release build under timeout 10 s and RLIMIT_AS 1 GiB; non-trivial = argv with ≥ 2 options "
                 "or a bounds string of ≥ 2 symbols")
@@ -127,6 +131,28 @@ def run(chk):
                     c = {"kind": "cut", "eng": "auto", "d": d, "b": ("2", "1:", "-1")[len(rec) % 3], "in": rec + b"\n", "t": t, "fb": b"G"}
                     c.update(extra)
                     cases.append(c)
+    # history: the same boundary records as the 2nd / 3rd record of an input whose earlier records have several fields (scratch buffers
+    # and field tables are reused from record to record), with literal and regex delimiters and every subset of -g -p -s -j, -r '' / R,
+    # -t, and no fallback (a stale range is then used for slicing)
+    hist_n = 30000 if chk.tier == "quick" else 300000
+    tails = list(bytes_upto([b"-", b",", b"x"], 4))
+    for _ in range(hist_n):
+        first = rng.choice([b"x-x-x", b"-x--x-", b"xx-x,x-x", b"x", b"x,x"])
+        recs = [first] + [rng.choice(tails) for _ in range(rng.randint(1, 2))]
+        c = {"kind": "cut", "eng": rng.choice(["auto", "str"]), "d": rng.choice([b"-", b"--", b"-,"]), "b": rng.choice(["2", "1:", "-1", "2:3", "3", "-2"]),
+             "in": b"\n".join(recs) + b"\n"}
+        if rng.random() < 0.5:
+            c["re"] = rng.choice(["-", "-|,", "[-,]", "-+"])
+            c["eng"] = "str"
+        for k in ("g", "p", "s", "j"):
+            if rng.random() < 0.4:
+                c[k] = True
+        if rng.random() < 0.5:
+            c["r"] = rng.choice([b"", b"", b"/", b"-"])
+            c["j"] = True
+        if rng.random() < 0.5:
+            c["t"] = rng.choice(["l", "r", "b"])
+        cases.append(c)
     for c in cases[1000:1003]:
         chk.sample(case_line(c))
     lines, impl, model = evaluate(chk, cases, "K-engines", spec=False)
@@ -139,6 +165,8 @@ def run(chk):
     cli_cases = [(rand_argv(rng), rand_stdin(rng)) for _ in range(n)]
     for argv, stdin in cli_cases[:3]:
         chk.sample({"argv": argv, "stdin_hex": stdin.hex()[:120]})
+    from cases import argv_stream
+    argv_stream(chk, build_tuc(release=False), 10000 if chk.tier == "quick" else 100000)
     for release in (False, True):
         binary = build_tuc(release=release)
         sts = cli_batch(binary, cli_cases)
